@@ -267,6 +267,59 @@ macro_rules! first_registration {
     }};
 }
 
+/// A back-off whose delays saturate (step u64::MAX s or Duration::MAX, no cap): after an outage
+/// the stream simply waits; nothing may panic and no attempt may be made early.
+async fn huge_delay_cell(set: Arc<CertSet>, kind: String, step: String) -> Result<String, Fail> {
+    let class = format!("{kind}:huge-delay");
+    let setup = |what: &str, e: String| fail("setup", what, format!("{what}: {e}"));
+    let mut fake = FakeServer::start(&set).map_err(|e| setup("fake server", e.to_string()))?;
+    let d = if step == "duration-max" { Duration::MAX } else { Duration::from_secs(u64::MAX) };
+    let strategy = match step.as_str() {
+        "exponential-saturating" => BackoffStrategy::exponential(u64::MAX).with_max_attempts(5).with_step(Duration::from_secs(u64::MAX / 2)),
+        _ => BackoffStrategy::constant().with_max_attempts(3).with_step(d),
+    };
+    let client = net::client_ka(fake.addr, &set.ca, &set.client, strategy, 5_000).await.map_err(|e| setup("client connect", e.to_string()))?;
+    let topic = "/c12ns/hugedelay";
+    let mut op = if kind == "subscriber" {
+        let b = client.subscriber(topic).with_decoder(StringCodec);
+        let task = tokio::spawn(async move { b.open().await });
+        let (_cur, _orig, mut sub) = first_registration!(fake, task, &class);
+        fake.cut();
+        tokio::time::sleep(Duration::from_millis(100)).await;
+        tokio::spawn(async move { sub.next().await.map(|r| r.map(|_| ())) })
+    } else {
+        let b = client.publisher(topic).with_encoder(StringCodec);
+        let task = tokio::spawn(async move { b.open().await });
+        let (_cur, _orig, mut publ) = first_registration!(fake, task, &class);
+        fake.cut();
+        tokio::time::sleep(Duration::from_millis(100)).await;
+        tokio::spawn(async move {
+            let mut r = publ.send("x".to_string()).await;
+            for _ in 0..40 {
+                if r.is_err() {
+                    break;
+                }
+                tokio::time::sleep(Duration::from_millis(50)).await;
+                r = publ.send("x".to_string()).await;
+            }
+            Some(r)
+        })
+    };
+    let r = tokio::time::timeout(Duration::from_secs(4), &mut op).await;
+    let early = fake.incoming.try_recv().is_ok();
+    fake.shutdown();
+    match r {
+        Ok(Err(e)) if e.is_panic() => Err(fail("client-panicked", &class, format!("with a back-off whose delay saturates ({step}) the {kind} panicked while recovering from an outage: {e}"))),
+        _ if early => Err(fail("backoff-not-honoured", &class, format!("with a back-off delay of {step} a re-registration arrived within 4 s"))),
+        Err(_) => {
+            op.abort();
+            Ok("waits-without-panicking".into())
+        }
+        Ok(Ok(x)) => Ok(format!("returned {}", if x.map_or(true, |r| r.is_err()) { "an error" } else { "a value" })),
+        Ok(Err(e)) => Err(setup("task", e.to_string())),
+    }
+}
+
 /// shared tail of an outage: interpret what the fake server saw
 fn judge(served: &Served, p: &Params, j: usize, class: &str) -> Result<(), Fail> {
     let fails = p.fails[j - 1];
@@ -381,12 +434,30 @@ async fn subscriber(fake: &mut FakeServer, cutter: &Cutter, client: &selium::Cli
         }
     }
     for j in 1..=p.outages {
+        // long silent outage: the subscriber is already waiting when the path goes dark, so that
+        // its recovery (and the dial of its first attempt) starts while nothing answers
+        let waiting = p.outage == "timeout-long";
+        let mut sub_now = Some(sub);
+        let mut early_op = None;
+        if waiting {
+            let mut s = sub_now.take().unwrap();
+            early_op = Some(tokio::spawn(async move {
+                let r = s.next().await;
+                (s, r)
+            }));
+        }
         cutter.outage(fake, &mut cur).await;
         let seen = Arc::new(std::sync::atomic::AtomicBool::new(false));
-        let mut op = tokio::spawn(async move {
-            let r = sub.next().await;
-            (sub, r)
-        });
+        let mut op = match early_op {
+            Some(o) => o,
+            None => {
+                let mut s = sub_now.take().unwrap();
+                tokio::spawn(async move {
+                    let r = s.next().await;
+                    (s, r)
+                })
+            }
+        };
         let (served, early) = serve(fake, &orig, &Outage { fails: p.fails[j - 1], code, backoff: p.backoff.clone(), seen: seen.clone(), how: p.how.clone() }, &mut op).await;
         judge(&served, p, j, class)?;
         match served {
@@ -810,6 +881,13 @@ fn cells(tier: &str) -> Vec<Value> {
             }
         }
     }
+    // back-off delays that saturate: waiting is fine, panicking is not
+    for kind in ["subscriber", "publisher"] {
+        for step in ["u64-max-seconds", "duration-max", "exponential-saturating"] {
+            v.push(json!({"cell": id, "kind": kind, "family": "huge-delay", "step": step, "items_before": 0, "outages": 1, "failing_attempts_per_outage": [0], "max_attempts": 3}));
+            id += 1;
+        }
+    }
     // a clone of a requestor must recover with the configured budget and delays, like the original
     for &max in maxes {
         for fv in [vec![0u32], vec![max.saturating_sub(1)], vec![max], vec![0, max]] {
@@ -840,7 +918,7 @@ pub async fn run(tier: &str, replaying: bool) -> ! {
                 outages: c["outages"].as_u64().unwrap() as usize,
                 fails: c["failing_attempts_per_outage"].as_array().unwrap().iter().map(|x| x.as_u64().unwrap() as u32).collect(),
                 fatal: c["failure"].as_str() == Some("unrecoverable"),
-                backoff: c["backoff"].as_str().unwrap().to_string(),
+                backoff: c["backoff"].as_str().unwrap_or("constant").to_string(),
                 max: c["max_attempts"].as_u64().unwrap() as u32,
                 outage: c["outage"].as_str().unwrap_or("close").to_string(),
                 how: c["attempt_failure"].as_str().unwrap_or("error-frame").to_string(),
@@ -851,6 +929,13 @@ pub async fn run(tier: &str, replaying: bool) -> ! {
             // in a task of its own: a panic inside the client library is a verdict about the cell,
             // not the end of the engine
             let kind = p.kind.clone();
+            if c["family"].as_str() == Some("huge-delay") {
+                let r = match tokio::spawn(huge_delay_cell(set, kind.clone(), c["step"].as_str().unwrap().to_string())).await {
+                    Ok(r) => r,
+                    Err(e) => Err(fail("client-panicked", &kind, format!("the client library panicked: {e}"))),
+                };
+                return (true, r);
+            }
             let r = match tokio::spawn(cell(set, p)).await {
                 Ok(r) => r,
                 Err(e) if e.is_panic() => Err(fail("client-panicked", &kind, format!("the client library panicked while the {kind} was recovering: {e}"))),
@@ -866,7 +951,7 @@ pub async fn run(tier: &str, replaying: bool) -> ! {
     finish(
         rep,
         outs,
-        "every cell of: stream kind {publisher, subscriber, requestor, replier} x items exchanged before the first cut {0,1(,2)} x number of successive outages 1..=max+2 x failing re-registration attempts per outage 0..=max x backoff {constant, linear, exponential(2)} (all three in thorough, rotating in quick) with step 5 ms x max attempts {1,2(,3)}, plus (thorough) every non-uniform vector of survivable failure counts over up to three outages, plus cells whose failing attempts fail because the fake server cuts the connection again while the client waits for the answer to its re-registration (instead of answering with an error frame), plus clients built with backoff_strategy() before keep_alive() (the configured budget must still apply), plus a silent outage of 6 s (the first dial of the recovery stays unanswered for more than 5 s; any number of attempts within the budget is accepted, the stream must work again), plus the requestor flow driven through a clone of the opened handle (same budget and delays expected), plus outages that start with a reset of the served stream (the client sees a stream-level error before the connection-level one), plus graceful outages (the fake server finishes the served stream cleanly, so the client sees the end of the stream rather than a read error, and then closes the connection), plus repliers whose re-registration is acknowledged and then refused with replier-already-bound and closed (what the real server does while the old binding exists; every acknowledged attempt ends one outage, so the replier must keep re-registering until served), plus publishers with 10 KiB fed but not flushed at the moment of the cut (the loss then surfaces in poll_ready), plus one unrecoverable-answer cell per (kind, max, items), plus silent outages (a UDP relay drops every packet for 2.6 s against a 1.5 s idle time-out, so the connection ends by time-out instead of by a close frame) per (kind, max), plus two clones of one requestor recovering one after the other with a request of the first in flight. Oracle per outage: the re-registration frame equals the original; the fake server counts exactly fails+1 attempts (max when all fail, 1 when unrecoverable) regardless of earlier outages; with fails<max the stream works again (published item reaches the fake server / pushed item is yielded / retried and fresh requests are answered / a request sent to the replier is replied to); with fails==max too-many-retries is reported on the operation that hit the outage or on the next one; an unrecoverable answer is reported immediately. non-trivial = at least two outages or at least one failing attempt",
+        "every cell of: stream kind {publisher, subscriber, requestor, replier} x items exchanged before the first cut {0,1(,2)} x number of successive outages 1..=max+2 x failing re-registration attempts per outage 0..=max x backoff {constant, linear, exponential(2)} (all three in thorough, rotating in quick) with step 5 ms x max attempts {1,2(,3)}, plus (thorough) every non-uniform vector of survivable failure counts over up to three outages, plus cells whose failing attempts fail because the fake server cuts the connection again while the client waits for the answer to its re-registration (instead of answering with an error frame), plus clients built with backoff_strategy() before keep_alive() (the configured budget must still apply), plus a silent outage of 6 s (the first dial of the recovery stays unanswered for more than 5 s; any number of attempts within the budget is accepted, the stream must work again), plus back-off delays that saturate (step u64::MAX s, Duration::MAX, exponential overflowing): after an outage the subscriber / publisher may wait, must not panic and must not retry early, plus the requestor flow driven through a clone of the opened handle (same budget and delays expected), plus outages that start with a reset of the served stream (the client sees a stream-level error before the connection-level one), plus graceful outages (the fake server finishes the served stream cleanly, so the client sees the end of the stream rather than a read error, and then closes the connection), plus repliers whose re-registration is acknowledged and then refused with replier-already-bound and closed (what the real server does while the old binding exists; every acknowledged attempt ends one outage, so the replier must keep re-registering until served), plus publishers with 10 KiB fed but not flushed at the moment of the cut (the loss then surfaces in poll_ready), plus one unrecoverable-answer cell per (kind, max, items), plus silent outages (a UDP relay drops every packet for 2.6 s against a 1.5 s idle time-out, so the connection ends by time-out instead of by a close frame) per (kind, max), plus two clones of one requestor recovering one after the other with a request of the first in flight. Oracle per outage: the re-registration frame equals the original; the fake server counts exactly fails+1 attempts (max when all fail, 1 when unrecoverable) regardless of earlier outages; with fails<max the stream works again (published item reaches the fake server / pushed item is yielded / retried and fresh requests are answered / a request sent to the replier is replied to); with fails==max too-many-retries is reported on the operation that hit the outage or on the next one; an unrecoverable answer is reported immediately. non-trivial = at least two outages or at least one failing attempt",
         "fault sequences are enumerated exhaustively; scheduling inside tokio/quinn is not controlled",
         json!({"step_ms": STEP_MS}),
         replaying,
